@@ -136,12 +136,20 @@ def rule_symmetry(repo, rule):
                 posname[norm(e)] = i
     rwrites = state_writes(rg.node, rgl)
     restored = {}
+    direct_unpack = {}
+    for n in ast.walk(rg.node):
+        if isinstance(n, ast.Assign) and norm(n.value) == param and isinstance(n.targets[0], (ast.Tuple, ast.List)):
+            for i, e in enumerate(n.targets[0].elts):
+                for loc in _locs(e, rgl):
+                    direct_unpack[loc] = i
     for s, loc, v in rwrites:
         vt = norm(v)
         if vt in posname:
             restored[loc] = posname[vt]
         elif isinstance(v, ast.Subscript) and norm(v.value) == param and isinstance(v.slice, ast.Constant):
             restored[loc] = v.slice.value
+        elif loc in direct_unpack:
+            restored[loc] = direct_unpack[loc]
         else:
             restored[loc] = ("?", vt)
     for loc in W:
@@ -160,7 +168,7 @@ def rule_symmetry(repo, rule):
     return W
 
 
-def rule_release(repo, rule, include_clients=False):
+def rule_release(repo, rule, include_clients=False, skip_field_tokens=False):
     mods = list(repo.modules.values()) + (list(repo.clients.values()) if include_clients else [])
     for m in mods:
         for fi in m.functions.values():
@@ -203,6 +211,8 @@ def rule_release(repo, rule, include_clients=False):
                     else:
                         rule.ok(where, fi.fq, "%s released by restore_guard(%s) on every path (%d release sites)" % (
                             norm(s), tok, len(rel)))
+                elif isinstance(s, ast.Assign) and isinstance(s.targets[0], ast.Attribute) and skip_field_tokens:
+                    rule.note(where, fi.fq, norm(s), "token kept in an object field (block API): decided under C08")
                 elif isinstance(s, ast.Assign) and isinstance(s.targets[0], ast.Attribute):
                     fld = norm(s.targets[0])
                     rule.violation(where, fi.fq, norm(s),
@@ -410,6 +420,17 @@ def rule_census(repo, rule, include_clients=False):
                     rule.violation(fi.loc(s), fi.fq, norm(s),
                                    "`%s` is guard state: only add_guard/restore_guard may write it" % loc,
                                    "%s/%s" % (fi.fq, loc))
+
+
+def guard_discipline(repo, rule):
+    """The guard-state rules as shared instances for properties whose premise is that guard state (active guard,
+    error suppression, meaning of constants) is exactly what the enclosing regions say: restore symmetry, release on
+    every exit of guarded(), no partial acquisition, conjunction / or-ed suppression.  (The block API's field-stored
+    token is decided under C08 only.)"""
+    rule_symmetry(repo, rule)
+    rule_release(repo, rule, skip_field_tokens=True)
+    rule_partial(repo, rule)
+    rule_conjunction(repo, rule)
 
 
 def check(repo, rep, tier):
